@@ -257,3 +257,5 @@ pub fn c16_back_s_us() {
 pub fn c16_back_s_ms() {
     roundtrip_law::<Second, Millisecond>()
 }
+
+include!("c16_nat.rs");
